@@ -107,7 +107,7 @@ def main():
     rng = ck.rng
     cases = []
     for c in load_corpus('C04'):
-        cases.extend(tree_cases(rng, c['trees'], tuple(c['sep']), 'compact', 'corpus', check_punct=False))
+        cases.extend(tree_cases(rng, c['trees'], tuple(c['sep']), c.get('style', 'compact'), 'corpus', check_punct=False))
     n = 1500 if ck.thorough else 130
     for k in range(n):
         fam = ['ascii', 'multi', 'ipa', 'sepfrag'][k % 4]
@@ -115,7 +115,7 @@ def main():
         trees = [sl.rand_tree(rng, sl.PHONES[fam]) for _ in range(rng.randint(1, 5))]
         if not all(sl.tree_ok(t, sep) for t in trees):
             continue
-        styles = ['compact'] + (['padded'] if sep[0] == ' ' else [])
+        styles = ['compact', 'padded'] + (['fullpad'] if sep[0] not in (None, ' ') else [])
         for st in styles:
             cases.extend(tree_cases(rng, trees, sep, st, 'trees-%s-%s' % (fam, st)))
     # outside the quantifier (correspondence only): undefined phone/word level, syllable level without syllables
@@ -134,7 +134,7 @@ def main():
         rule='%d draws of 1-5 random word/syllable/phone trees x %d separator triples (syllable optionally undefined, phone separator space or not, multi-character and non-ASCII, word separator with an inner space) '
              'x compact/padded tagging x interleaved blank lines and trailing newlines, through prepare(phone), prepare(syllable) and gold; oracle: the three views recomputed from the trees. '
              'Every case is non-trivial (distinct tree/separator/view).' % (n, len(SEPS)),
-        assumptions=['the word separator has no leading/trailing whitespace (prepare strips each line before checking its end)', 'the syllable separator is not a single space (prepare removes spaces at syllable level); padded tagging only with a space phone separator'])
+        assumptions=['the word separator has no leading/trailing whitespace (prepare strips each line before checking its end)', 'the syllable separator is not a single space (prepare removes spaces at syllable level)'])
 
 
 if __name__ == '__main__':
